@@ -270,13 +270,24 @@ func (c fcfg) inNamespace(name string) (int64, bool) {
 
 var decoys = []string{"other-1.log", "zaudit-1.log", "audit.txt", "audit-x"}
 
+// nearDecoys are neighbours that start with the sink's base name and end with its extension but are
+// not of the form <base>-<anything><ext>: they are outside the sink's name space, some sort before
+// and some after its rotated files.
+func nearDecoys(c fcfg) []string {
+	p, ext := c.pattern()
+	base := strings.TrimSuffix(p, "-")
+	return []string{base + " (copy)" + ext, base + "+x" + ext, base + "_old" + ext, base + "2" + ext, base + "~" + ext}
+}
+
 func newRun(parent string, cfg fcfg) *frun {
 	dir := parent
 	if cfg.SubDir {
 		dir = filepath.Join(parent, "new", "dir")
 	} else {
-		for _, d := range decoys {
-			os.WriteFile(filepath.Join(dir, d), []byte("decoy"), 0o644)
+		for _, d := range append(append([]string{}, decoys...), nearDecoys(cfg)...) {
+			if d != cfg.FileName {
+				os.WriteFile(filepath.Join(dir, d), []byte("decoy"), 0o644)
+			}
 		}
 		os.Mkdir(filepath.Join(dir, "subdir-"+cfg.FileName), 0o755)
 	}
@@ -366,7 +377,7 @@ func genCfg(r *rt.Rand) fcfg {
 		MaxFiles: r.Intn(4),
 		MaxDurMS: rt.Pick(r, []int{0, 0, 0, 30}),
 		TSOnly:   r.Bool(),
-		Mode:     rt.Pick(r, []os.FileMode{0, 0, 0o600, 0o640, 0o644, 0o400 | 0o200}),
+		Mode:     rt.Pick(r, []os.FileMode{0, 0, 0o600, 0o640, 0o644, 0o666, 0o660, 0o664, 0o622}),
 		FileName: rt.Pick(r, []string{"audit.log", "audit.log", "audit", "ev.json"}),
 		SubDir:   r.Intn(6) == 0,
 		Format:   rt.Pick(r, []string{"", "", "cloudevents-json"}),
